@@ -153,17 +153,23 @@ def St.new (t : Tree K V) : St K V :=
 def St.newGas (t : Tree K V) (limit : Int) : St K V :=
   { sess := none, cache := [], metered := true, gas := ⟨limit, 0⟩, tree := t }
 
+/-- result of a read: a value (or absence), or `ErrExceedGasLimit` -/
+inductive GetRes (V : Type) where
+  | val (v : Option V)
+  | errGas
+  deriving Repr, DecidableEq
+
 /-- `s.cache.Get`: `GasStore.Get` when metered, else `sessionCache.Get`.
-    `none` = an error was returned (not found or gas refusal) -/
-def St.cacheGet (c : Cfg K V) (s : St K V) (k : K) : St K V × Option V :=
+    `.val none` = not found, `.errGas` = the meter refused the read -/
+def St.cacheGet (c : Cfg K V) (s : St K V) (k : K) : St K V × GetRes V :=
   if s.metered then
     match s.gas.consumeStrict 20 with
-    | none => (s, none)
+    | none => (s, .errGas)
     | some g =>
       match alookup k s.cache with
-      | none => ({ s with gas := g }, none)
-      | some v => ({ s with gas := g.consumeAlways ((c.vlen v : Int) * 2) }, some v)
-  else (s, alookup k s.cache)
+      | none => ({ s with gas := g }, .val none)
+      | some v => ({ s with gas := g.consumeAlways ((c.vlen v : Int) * 2) }, .val (some v))
+  else (s, .val (alookup k s.cache))
 
 /-- `State.deleted`: a pending delete in the session or (unmetered) in the block cache -/
 def St.deleted (c : Cfg K V) (s : St K V) (k : K) : Bool :=
@@ -175,14 +181,16 @@ def St.deleted (c : Cfg K V) (s : St K V) (k : K) : Bool :=
     | none => false
 
 /-- `State.Get`: session, then block cache, then the tree; a key deleted in an overlay
-    reads as absent (`nil, nil`) -/
-def St.get (c : Cfg K V) (s : St K V) (k : K) : St K V × Option V :=
+    reads as absent (`nil, nil`); a read the meter refused is an error: only a real miss of the
+    cache goes on to the tree (/repo: "reads after the block gas is used up fail") -/
+def St.get (c : Cfg K V) (s : St K V) (k : K) : St K V × GetRes V :=
   match s.sess.bind (alookup k) with
-  | some v => (s, if v = c.tomb then none else some v)
+  | some v => (s, .val (if v = c.tomb then none else some v))
   | none =>
     match s.cacheGet c k with
-    | (s', some v) => (s', if v = c.tomb then none else some v)
-    | (s', none) => (s', s'.tree.get k)
+    | (s', .val (some v)) => (s', .val (if v = c.tomb then none else some v))
+    | (s', .val none) => (s', .val (s'.tree.get k))
+    | (s', .errGas) => (s', .errGas)
 
 /-- `s.cache.Exists` -/
 def St.cacheHas (s : St K V) (k : K) : St K V × Bool :=
@@ -198,7 +206,10 @@ def St.has (c : Cfg K V) (s : St K V) (k : K) : St K V × Bool :=
   else
     match s.cacheHas k with
     | (s', true) => (s', !s'.deleted c k)
-    | (s', false) => (s', s'.tree.has k)
+    | (s', false) =>
+      -- the metered cache also answers `false` when the meter refuses: the cache is looked at
+      -- once more without the meter before the tree is asked
+      if (alookup k s'.cache).isSome then (s', !s'.deleted c k) else (s', s'.tree.has k)
 
 /-- result of `State.Set` -/
 inductive SetRes where
@@ -268,8 +279,9 @@ def St.iter (c : Cfg K V) (s : St K V) (lo hi : Option K) (asc : Bool) : St K V 
     (fun (acc : St K V × List (K × Option V)) k =>
       if acc.1.deleted c k then acc
       else
-        let (s', v) := acc.1.get c k
-        (s', acc.2 ++ [(k, v)]))
+        match acc.1.get c k with
+        | (s', .val v) => (s', acc.2 ++ [(k, v)])
+        | (s', .errGas) => (s', acc.2))      -- `if err != nil { continue }`
     (s, [])
 
 /-! ### operations and outputs (the line protocol of the `kv` engine) -/
@@ -310,7 +322,7 @@ def step (c : Cfg K V) (s : St K V) : Op K V → St K V × Out K V
     let (s', r) := s.set c k v
     (s', match r with | .ok => .ok | .errGas => .errGas | .errReserved => .errReserved)
   | .del k => (s.del c k, .ok)
-  | .get k => let (s', v) := s.get c k; (s', .val v)
+  | .get k => let (s', r) := s.get c k; (s', match r with | .val v => .val v | .errGas => .errGas)
   | .has k => let (s', b) := s.has c k; (s', .bool b)
   | .iter lo hi asc => let (s', l) := s.iter c lo hi asc; (s', .list l)
   | .begin => (s.begin, .ok)
